@@ -1,4 +1,5 @@
 import Ufw.Props.C12
+import Ufw.Tie.Slip
 #print axioms Ufw.Props.C12.enc_eq_rfc
 #print axioms Ufw.Props.C12.encode_emits_enc
 #print axioms Ufw.Props.C12.no_inner_delimiter
@@ -11,3 +12,7 @@ import Ufw.Props.C12
 #print axioms Ufw.Props.C12.emit_le_consume
 #print axioms Ufw.Props.C12.source_error_passthrough
 #print axioms Ufw.Props.C12.sink_error_passthrough
+#print axioms Ufw.Tie.Slip.const_model_octets
+#print axioms Ufw.Tie.Slip.const_rfc1055_octets
+#print axioms Ufw.Tie.Slip.const_octets_distinct
+#print axioms Ufw.Tie.Slip.const_worst_case
